@@ -58,29 +58,70 @@ theorem C17_reenter_active (t : TagId) (b : Progs) (s s' : St) (hr : Reach (s.en
     (Prog.block t b).exec s' = (s', .raised .runtimeError) :=
   C17_reenter t b s' (by rw [C17_reach_prev hr t s.hook (entered_prev_self s t)]; simp)
 
-/-- observed behaviour of the pinned code, not demanded by the property: `__exit__` does not clear
-    `prev_displayhook`, so a tag whose block has ended cannot be entered again either; nothing changes then -/
-theorem C17_reenter_exited (t : TagId) (b b' : Progs) (s : St) (h : (s.tags t).prev = none) :
-    (Prog.block t b').exec ((Prog.block t b).exec s).1 = (((Prog.block t b).exec s).1, .raised .runtimeError) := by
-  apply C17_reenter
-  rw [block_exec_none b h, exitTag_prev, Progs.exec_prev b _ t s.hook (entered_prev_self s t)]
-  simp
-
 /-! ### collect -/
 
-/-- the child rules for one displayed value: None and Ellipsis are ignored, a `_repr_html_` object is kept as HTML,
-    a number as its `str`, a Tag by reference, strings and HTML as they are; exactly the invalid values are rejected,
-    with TypeError -/
+/-- the child rules for one displayed value that is not a sequence: None and Ellipsis are ignored, a `_repr_html_`
+    object is kept as HTML, a number as its `str`, a Tag by reference, strings and HTML as they are; a Tagifiable object
+    is kept as the object — also when it has `_repr_html_` as well (a JSXTag, a widget): it is NOT turned into HTML,
+    so its `tagify()` and its dependencies survive; exactly the invalid values are rejected, with TypeError -/
 theorem C17_child_rules (s h : Str) (t : TagId) :
     normDisplayed .none = .ok [] ∧ normDisplayed .ellipsis = .ok [] ∧
     normDisplayed (.reprHtml h) = .ok [.html h] ∧ normDisplayed (.html h) = .ok [.html h] ∧
     normDisplayed (.text s) = .ok [.text s] ∧ normDisplayed (.num s) = .ok [.text s] ∧
     normDisplayed (.tagRef t) = .ok [.tagRef t] ∧ normDisplayed .invalid = .error .typeError ∧
-    (∀ v e, normDisplayed v = .error e → v = .invalid ∧ e = .typeError) := by
-  refine ⟨rfl, rfl, rfl, rfl, rfl, rfl, rfl, rfl, ?_⟩
-  intro v e hv
-  cases v <;> simp [normDisplayed, wrapFilter, toItems] at hv ⊢
+    normDisplayed (.tagifiable s) = .ok [.tobj s] ∧ normDisplayed (.tagifiableRepr s) = .ok [.trobj s] ∧
+    (∀ v e, v.isSeq = false → normDisplayed v = .error e → v = .invalid ∧ e = .typeError) := by
+  refine ⟨rfl, rfl, rfl, rfl, rfl, rfl, rfl, rfl, rfl, rfl, ?_⟩
+  intro v e hs hv
+  cases v <;> simp [normDisplayed, wrapFilter, toItems, Val.flat, toNodes, nodeOf, Val.isSeq] at hv hs ⊢
   exact hv.symm
+
+/-- the child rules for displayed sequences: a TagList contributes its nodes as they are; a list and a tuple contribute,
+    in order, what each element contributes under the rules of `append` (`toItems`), the first rejected element
+    rejecting the whole value (nothing is appended then, see `C17_invalid_any`) -/
+theorem C17_child_rules_seq (its : List Item) (v : Val) (vs : Vals) :
+    normDisplayed (.tagList its) = .ok its ∧
+    normDisplayed (.list .nil) = .ok [] ∧ normDisplayed (.tuple .nil) = .ok [] ∧
+    normDisplayed (.list (.cons v vs)) = appendE (toItems v) (normDisplayed (.list vs)) ∧
+    normDisplayed (.tuple (.cons v vs)) = appendE (toItems v) (normDisplayed (.tuple vs)) := by
+  refine ⟨?_, rfl, rfl, ?_, ?_⟩
+  · simp [normDisplayed, wrapFilter, toItems, Val.flat, toNodes_map_toVal]
+  · simp [normDisplayed, wrapFilter, toItems, Val.flat, Vals.flat, toNodes_append]
+  · simp [normDisplayed, wrapFilter, toItems, Val.flat, Vals.flat, toNodes_append]
+
+/-- an element of a displayed list/tuple is under the rules of `append`, which differ from those of a displayed value
+    in two places: `...` is rejected (only the hook wrapper ignores it), and a `_repr_html_` object is kept as the
+    object; nested lists/tuples/TagLists are opened in place -/
+theorem C17_child_rules_elem (s h : Str) (t : TagId) (its : List Item) (v : Val) (vs : Vals) :
+    toItems .none = .ok [] ∧ toItems .ellipsis = .error .typeError ∧ toItems .invalid = .error .typeError ∧
+    toItems (.reprHtml h) = .ok [.robj h] ∧ toItems (.html h) = .ok [.html h] ∧
+    toItems (.text s) = .ok [.text s] ∧ toItems (.num s) = .ok [.text s] ∧ toItems (.tagRef t) = .ok [.tagRef t] ∧
+    toItems (.tagifiable s) = .ok [.tobj s] ∧ toItems (.tagifiableRepr s) = .ok [.trobj s] ∧
+    toItems (.tagList its) = .ok its ∧
+    toItems (.list .nil) = .ok [] ∧ toItems (.list (.cons v vs)) = appendE (toItems v) (toItems (.list vs)) ∧
+    toItems (.tuple vs) = toItems (.list vs) := by
+  refine ⟨rfl, rfl, rfl, rfl, rfl, rfl, rfl, rfl, rfl, rfl, ?_, rfl, ?_, rfl⟩
+  · simp [toItems, Val.flat, toNodes_map_toVal]
+  · simp [toItems, Val.flat, Vals.flat, toNodes_append]
+
+/-- a displayed value is rejected exactly when it is an invalid value, or a list/tuple holding at any depth an invalid
+    value or `...` (`Val.rejected`, read off the value); the exception is always TypeError -/
+theorem C17_child_rules_rejects (v : Val) (e : Err) :
+    normDisplayed v = .error e ↔ e = .typeError ∧ v.rejected = true := by
+  cases v with
+  | list vs => simpa [normDisplayed, wrapFilter, Val.rejected] using toItems_error_iff (.list vs) e
+  | tuple vs => simpa [normDisplayed, wrapFilter, Val.rejected] using toItems_error_iff (.tuple vs) e
+  | tagList its => simp [normDisplayed, wrapFilter, Val.rejected, Val.badChild, toItems, Val.flat, toNodes_map_toVal]
+  | invalid => simp [normDisplayed, wrapFilter, Val.rejected, Val.badChild, toItems, Val.flat, toNodes, nodeOf]; exact eq_comm
+  | none => simp [normDisplayed, wrapFilter, Val.rejected, Val.badChild]
+  | ellipsis => simp [normDisplayed, wrapFilter, Val.rejected]
+  | text s => simp [normDisplayed, wrapFilter, Val.rejected, Val.badChild, toItems, Val.flat, toNodes, nodeOf]
+  | num s => simp [normDisplayed, wrapFilter, Val.rejected, Val.badChild, toItems, Val.flat, toNodes, nodeOf]
+  | html s => simp [normDisplayed, wrapFilter, Val.rejected, Val.badChild, toItems, Val.flat, toNodes, nodeOf]
+  | reprHtml s => simp [normDisplayed, wrapFilter, Val.rejected, Val.badChild, toItems, Val.flat, toNodes, nodeOf]
+  | tagRef t => simp [normDisplayed, wrapFilter, Val.rejected, Val.badChild, toItems, Val.flat, toNodes, nodeOf]
+  | tagifiable s => simp [normDisplayed, wrapFilter, Val.rejected, Val.badChild, toItems, Val.flat, toNodes, nodeOf]
+  | tagifiableRepr s => simp [normDisplayed, wrapFilter, Val.rejected, Val.badChild, toItems, Val.flat, toNodes, nodeOf]
 
 /-- a block's tag afterwards holds its former children followed by the normalised values displayed directly in the
     block, in order, up to the first raise, nested blocks contributing their tag when they exit (`Progs.spec`).
@@ -118,10 +159,18 @@ theorem C17_collect_final (ps : Progs) (s : St) (E : List TagId) (hA : Agree s E
     have h := Progs.exec_specTop ps s E hA hk
     exact Progs.exec_frame_none ps s u (prev_none_of_notin h.agree hu) (by rw [hk]; intro e; cases e)
 
-/-- via the wrapper only strings, HTML and Tag references are ever stored (no raw `_repr_html_` object) -/
-theorem C17_items_normal (v : Val) (its : List Item) (h : normDisplayed v = .ok its) :
+/-- a self-rendering object displayed directly is never stored raw: a non-sequence value leaves strings, HTML, Tag
+    references and Tagifiable objects only (inside a list/tuple the rules of `append` keep it as the object) -/
+theorem C17_items_normal (v : Val) (its : List Item) (hs : v.isSeq = false) (h : normDisplayed v = .ok its) :
     ∀ i ∈ its, ∀ r, i ≠ .robj r := by
-  cases v <;> simp [normDisplayed, wrapFilter, toItems] at h <;> subst h <;> simp
+  cases v <;> simp [normDisplayed, wrapFilter, toItems, Val.flat, toNodes, nodeOf, Val.isSeq] at h hs <;> subst h <;> simp
+
+/-- replacing a tag's child-list object by a new one holding the same nodes, at any point, changes nothing: what is
+    displayed afterwards still reaches the tag (`Progs.spec` passes over `rebind`, and `C17_collect` holds for bodies
+    containing it) — the hook is tied to the tag, not to the list object it had at entry -/
+theorem C17_collect_rebind (t : TagId) (s : St) (E : List TagId) :
+    (Prog.rebind t).exec s = (s, .done) ∧ ((Prog.rebind t).spec E).items = [] ∧ ((Prog.rebind t).spec E).outcome = .done :=
+  ⟨rfl, rfl, rfl⟩
 
 /-! ### invalid values and propagation -/
 
@@ -129,6 +178,12 @@ theorem C17_items_normal (v : Val) (its : List Item) (h : normDisplayed v = .ok 
 theorem C17_invalid (s : St) (x : TagId) (hk : s.hook = .wrap x) :
     (Prog.display .invalid).exec s = (s, .raised .typeError) := by
   rw [display_exec_wrap hk]; rfl
+
+/-- any rejected value (an invalid one, or a list/tuple holding one or `...` at any depth) displayed inside a block
+    raises TypeError and appends nothing — not even the elements before the bad one -/
+theorem C17_invalid_any (s : St) (x : TagId) (v : Val) (hk : s.hook = .wrap x) (hv : v.rejected = true) :
+    (Prog.display v).exec s = (s, .raised .typeError) := by
+  rw [display_exec_wrap hk, (C17_child_rules_rejects v .typeError).mpr ⟨rfl, hv⟩]
 
 /-- a raise ends the statement list: nothing after it runs -/
 theorem C17_raise_skips_rest (p : Prog) (ps : Progs) (s : St) (e : Err) (h : (p.exec s).2 = .raised e) :
@@ -196,29 +251,35 @@ theorem C17_once_nobody_else (t : TagId) (b : Progs) (s : St) :
     (s.hook ≠ .outer → ((Prog.block t b).exec s).1.outer = s.outer) :=
   ⟨fun u hu hk => Prog.exec_frame _ s u hu hk, fun hk => Prog.exec_outer _ s hk⟩
 
-/-- a failed `__enter__` hands the tag to nobody (state unchanged): so "exactly once" — see `C17_reenter` -/
-theorem C17_once_not_twice (t : TagId) (b b' : Progs) (s : St) (ht : (s.tags t).prev = none) :
-    ((Prog.block t b').exec ((Prog.block t b).exec s).1).1 = ((Prog.block t b).exec s).1 := by
-  rw [C17_reenter_exited t b b' s ht]
+/-- a failed `__enter__` (re-entering an active tag) hands the tag to nobody: state, children and log are unchanged, so
+    the one hand-over at the exit of the active block stays the only one — see `C17_reenter_active` -/
+theorem C17_once_not_on_failed_enter (t : TagId) (b : Progs) (s s' : St) (hr : Reach (s.entered t) s') :
+    ((Prog.block t b).exec s').1 = s' := by
+  rw [C17_reenter_active t b s s' hr]
 
 /-! ### non-vacuity: concrete instances -/
 
-/-- `with t0: display("a"); display(None); with t1: display(<repr r>); raise` followed by dead code, from the initial state -/
+/-- `with t0: display("a"); display(None); t0.children = <new list, same nodes>;
+      with t1: display(<repr r>); display(<JSXTag j>); display(["x", None, (7, <repr q>)]); raise`
+    followed by dead code, from the initial state -/
 def demo : Progs :=
-  .cons (.block 0 (.cons (.display (.text ['a'])) (.cons (.display .none)
-    (.cons (.block 1 (.cons (.display (.reprHtml ['r'])) (.cons .raise .nil))) (.cons (.display (.text ['z'])) .nil))))) .nil
+  .cons (.block 0 (.cons (.display (.text ['a'])) (.cons (.display .none) (.cons (.rebind 0)
+    (.cons (.block 1 (.cons (.display (.reprHtml ['r'])) (.cons (.display (.tagifiableRepr ['j']))
+      (.cons (.display (.list (.cons (.text ['x']) (.cons .none (.cons (.tuple (.cons (.num ['7']) (.cons (.reprHtml ['q']) .nil))) .nil)))))
+        (.cons .raise .nil)))))
+      (.cons (.display (.text ['z'])) .nil)))))) .nil
 
-example : ((demo.exec (St.init fun _ => [])).1.tags 0).children = [.text ['a'], .tagRef 1] := by
-  simp [demo, Progs.exec, Prog.exec, enterTag, St.entered, exitTag, callHook, wrapFilter, toItems, St.addChildren,
-    St.init, withOutcome]
-example : ((demo.exec (St.init fun _ => [])).1.tags 1).children = [.html ['r']] := by
-  simp [demo, Progs.exec, Prog.exec, enterTag, St.entered, exitTag, callHook, wrapFilter, toItems, St.addChildren,
-    St.init, withOutcome]
+example : ((demo.exec (St.init fun _ => [])).1.tags 0).children = [.text ['a'], .tagRef 1] := by decide
+example : ((demo.exec (St.init fun _ => [])).1.tags 1).children =
+    [.html ['r'], .trobj ['j'], .text ['x'], .text ['7'], .robj ['q']] := by decide
 example : (demo.exec (St.init fun _ => [])).2 = .raised .exception ∧
-    (demo.exec (St.init fun _ => [])).1.outer = [.tagRef 0] ∧ (demo.exec (St.init fun _ => [])).1.hook = .outer := by
-  simp [demo, Progs.exec, Prog.exec, enterTag, St.entered, exitTag, callHook, wrapFilter, toItems, St.addChildren,
-    St.init, withOutcome]
-example : demo.blocksTop [] = [(0, [.text ['a'], .tagRef 1]), (1, [.html ['r']])] := by decide
+    (demo.exec (St.init fun _ => [])).1.outer = [.tagRef 0] ∧ (demo.exec (St.init fun _ => [])).1.hook = .outer := by decide
+example : demo.blocksTop [] = [(0, [.text ['a'], .tagRef 1]),
+    (1, [.html ['r'], .trobj ['j'], .text ['x'], .text ['7'], .robj ['q']])] := by decide
+/-- a rejected sequence: the bad element sits two levels down, after good ones -/
+example : (Val.list (.cons (.text ['x']) (.cons (.tuple (.cons .none (.cons .ellipsis .nil))) .nil))).rejected = true ∧
+    normDisplayed (.list (.cons (.text ['x']) (.cons (.tuple (.cons .none (.cons .ellipsis .nil))) .nil))) = .error .typeError :=
+  ⟨by decide, (C17_child_rules_rejects _ _).mpr ⟨rfl, by decide⟩⟩
 /-- the hypotheses of `C17_reenter_active` are satisfiable: just inside the block of tag 0, two statements later -/
 example : Reach ((St.init fun _ => []).entered 0)
     ((Prog.display .none).exec ((Prog.display (.text ['a'])).exec ((St.init fun _ => []).entered 0)).1).1 :=
